@@ -134,7 +134,8 @@ class VonMisesFisherTrainer:
         mean = r / np.maximum(norm, np.finfo(y.dtype).tiny)[..., None]
 
         # [Banerjee2005vMF] Equation 2.5
-        r_bar = norm / np.sum(saliency, axis=-1)
+        # The mean resultant length cannot exceed one (up to rounding).
+        r_bar = np.minimum(norm / np.sum(saliency, axis=-1), 1)
 
         # [Banerjee2005vMF] Equation 4.4
         concentration = (r_bar * D - r_bar ** 3) / (1 - r_bar ** 2)
